@@ -283,6 +283,49 @@ def validate_events(ctx, R):
                     ctx.events.append({"e": "validate", "mh": kind, "ok": False, "exc": exc_name(e)})
 
 
+def initial_population_events(ctx, R, d):
+    """the population initialisers, including a warm start from programs AND from individuals of an earlier run:
+    what every individual of the first generation holds, and what the fitness function is handed, is a program"""
+    from geneticengine.solutions.individual import Individual
+    from geneticengine.problems import SingleObjectiveProblem
+    from geneticengine.evaluation.sequential import SequentialEvaluator
+    from geneticengine.representations.tree.operators import (InjectInitialPopulationWrapper, FullInitializer,
+                                                               GrowInitializer, RampedHalfAndHalfInitializer)
+    from geneticengine.algorithms.gp.operators.initializers import StandardInitializer
+    allowed = ctx.b.spec.get("reps") if isinstance(ctx.b.spec, dict) else None
+    if allowed and "tree" not in allowed:
+        return
+    src = RecordingSource(NativeRandomSource(R.randint(0, 10 ** 6)))
+    try:
+        with time_limit(8):
+            rep = TreeBasedRepresentation(ctx.g, mk_decider(ctx, "grow", d, src))
+            seen = []
+            problem = SingleObjectiveProblem(lambda p: (seen.append(p), 0.0)[1])
+            progs = [rep.create_genotype(src) for _ in range(4)]
+    except Exception:
+        return
+    earlier = [Individual(p, rep) for p in progs[:2]]
+    inits = [("inject-programs", lambda: InjectInitialPopulationWrapper(progs[2:], StandardInitializer())),
+             ("inject-individuals", lambda: InjectInitialPopulationWrapper(earlier, StandardInitializer())),
+             ("inject-mixed", lambda: InjectInitialPopulationWrapper([earlier[0], progs[3]], StandardInitializer())),
+             ("standard", StandardInitializer), ("full", lambda: FullInitializer(d)), ("grow", GrowInitializer),
+             ("ramped", lambda: RampedHalfAndHalfInitializer(d))]
+    for name, mk in inits:
+        def run():
+            return list(mk().initialize(problem, rep, src, 3))
+        pop = ctx.attempt("init-" + name, "tree", "grow", d, run, src, project=False)
+        if pop is None:
+            continue
+        for ind in pop:
+            ctx.produced("init-" + name, "tree", "grow", d, ind.get_phenotype() if isinstance(ind, Individual) else ind)
+        del seen[:]
+        r = ctx.attempt("init-eval-" + name, "tree", "grow", d, lambda: list(SequentialEvaluator().evaluate_async(problem, pop)),
+                        src, project=False)
+        if r is not None:
+            for p in seen:
+                ctx.produced("fitness-arg-" + name, "tree", "grow", d, p)
+
+
 def run_grammar(spec, prop, R, tier, batch, stats):
     b = GR.build_raw(spec) if "source" in spec else GR.build(spec)
     try:
@@ -344,8 +387,12 @@ def run_grammar(spec, prop, R, tier, batch, stats):
             d = mind + 2
             workload(ctx, R, d, ["grow", "full", "pigrow", "pt"], ["tree", "ge", "sge", "dsge", "stack"],
                      2 if quick else 5, 2 if quick else 6)
+            # ... and at the tightest limit the library accepts (no slack anywhere in the derivation)
+            workload(ctx, R, mind, ["grow", "full"], ["tree", "ge", "sge", "dsge"], 1 if quick else 3, 1 if quick else 3)
             if prop == "C02":
                 validate_events(ctx, R)
+            if prop == "C01":
+                initial_population_events(ctx, R, d)
         cfg = {"k": "syn", "g": ctx.decl, "impl0": ctx.impl0, "feats": spec.get("feats", []),
                "annot": "strings" if spec.get("postponed") else "objects", "expd": False}
         batch.trace(spec["id"], ctx.events, cfg)
